@@ -25,7 +25,7 @@ def _cfg_filter(tier):
     ks = [4] if tier == 'quick' else [4, 5, 6]
     for k in ks:
         for look in (0.0, 0.35, -0.35):
-            for start in ('below_up', 'below_down', 'above'):
+            for start in ('below_up', 'below_down', 'above', 'above_down'):
                 out.append({'k': k, 'look': look, 'start': start, 'rec': 'sparse'})
     # range rows interleaved with events: fewer points (the record-distance comparisons multiply the paths)
     for look in ((0.0,) if tier == 'quick' else (0.0, 0.35, -0.35)):
@@ -51,9 +51,10 @@ def c15_filter(ctx, k, look, start, rec):
     TF = p.TrajFlag
     T = math.tan(look)
     y0 = ctx.real('muzzle_y', -1, 1)
-    if start == 'above':
+    if start in ('above', 'above_down'):
         ctx.assume(y0 >= 0)
-        elev = look + 0.01
+        elev = look + (0.01 if start == 'above' else -0.01)     # sight below / on the bore line; barrel above or below the sight line
+        start = 'above'
     else:
         ctx.assume(y0 < 0)
         elev = look + (0.01 if start == 'below_up' else -0.01)
@@ -169,6 +170,7 @@ def c15_fire(ctx, carrier, step_ft, kw, wind, rlo, rhi):
     with carriers.spy_filter() as spy:
         res = calc.fire(shot, U.Foot(R), U.Foot(S), True)
     rows = res.trajectory
+    ctx.check('integration_reaches_the_range', spy[-1]['p'].x + 1.06 * (step_ft / 2) >= R)
     look = shot.look_angle >> U.Radian
     T = math.tan(look)
     # crossings of the integration points the filter was fed (concrete doubles)
